@@ -1,6 +1,7 @@
 import FindVerif.Theorems.C05
 import FindVerif.Theorems.C06Layout
 import FindVerif.Theorems.C06Args
+import FindVerif.Theorems.C08Text
 #print axioms FV.C05_order_safe
 #print axioms FV.C05_keyword_chars
 #print axioms FV.C05_front_safe
@@ -33,3 +34,4 @@ import FindVerif.Theorems.C06Args
 #print axioms FV.writes_test_binary
 #print axioms FV.writes_action_binary
 #print axioms FV.argExact_word
+#print axioms FV.argWrites_perm_symbolic
